@@ -1553,25 +1553,29 @@ fn driver_case(ctx: &mut Ctx, spec: &CorpusSpec, built: &Built, searcher: &Searc
         }
         // correspondence with the mirrored loop of block_wand (Model/BlockWand.lean), bit for bit:
         // same documents offered with the same score bits — also where the bounds fail
-        if let Q::Union(ts) = q {
-            if let Some(resp) = model_multi(ctx, "bwand", searcher, reader, &built.fields, ts, policy, initial) {
-                ctx.report.count("block-wand-vs-mirrored-loop");
+        let mirrored = match q { Q::Union(ts) => Some(("bwand", "block_wand", "C06:block-wand-mirrored-loop-mismatch", "block-wand-vs-mirrored-loop", ts)), Q::Inter(ts) => Some(("binter", "block_wand_intersection", "C06:block-wand-intersection-mirrored-loop-mismatch", "block-wand-intersection-vs-mirrored-loop", ts)), _ => None };
+        if let Some((op, name, key, counter, ts)) = mirrored {
+            if let Some(resp) = model_multi(ctx, op, searcher, reader, &built.fields, ts, policy, initial) {
+                ctx.report.count(counter);
                 let real_calls: String = if got.is_empty() { "-".into() } else { got.iter().map(|(d, s)| format!("{d}@{s}")).collect::<Vec<_>>().join(",") };
                 let model_calls = resp.split('|').nth(1).unwrap_or("?").to_string();
                 if !resp.starts_with("ok|") || model_calls != real_calls {
                     let (ubmax, ubblock) = ub_check(searcher, &built.fields, ts);
                     let ub_fails = ubmax.is_some() || ubblock.is_some();
-                    ctx.report.count(if ub_fails { "block-wand-vs-mirrored-loop:mismatch-where-a-bound-fails" } else { "block-wand-vs-mirrored-loop:mismatch" });
+                    ctx.report.count(&format!("{counter}:{}", if ub_fails { "mismatch-where-a-bound-fails" } else { "mismatch" }));
                     let rc: Vec<&str> = real_calls.split(',').collect();
                     let mc: Vec<&str> = model_calls.split(',').collect();
                     let p = (0..rc.len().max(mc.len())).find(|i| rc.get(*i) != mc.get(*i)).unwrap_or(0);
-                    ctx.report.violation("model", "C06:block-wand-mirrored-loop-mismatch", format!("{} on segment {ord}, policy {policy:?}, initial {initial:?}: block_wand offers {:?} at call {p}, the mirrored loop {:?} ({} vs {} calls; outcome {}; a bound hypothesis fails here: {ub_fails})", q.to_json(), rc.get(p), mc.get(p), rc.len(), mc.len(), resp.split('|').next().unwrap_or("")), case.clone());
+                    ctx.report.violation("model", key, format!("{} on segment {ord}, policy {policy:?}, initial {initial:?}: {name} offers {:?} at call {p}, the mirrored loop {:?} ({} vs {} calls; outcome {}; a bound hypothesis fails here: {ub_fails})", q.to_json(), rc.get(p), mc.get(p), rc.len(), mc.len(), resp.split('|').next().unwrap_or("")), case.clone());
+                } else if got.len() < all.len() {
+                    ctx.report.count(&format!("{counter}:pruned"));
                 }
             }
         }
         // (three and more clauses: the two paths add the clause scores in different orders, so the
         //  exact comparison with the exhaustive loop is left to `driver_case_multi`)
-        if q.clauses() <= 2 && got != expected {
+        // (conjunctions: the rounded `threshold - Σ block_max` of the candidate filter, see driver_run)
+        if q.clauses() <= 2 && !matches!(q, Q::Inter(_)) && got != expected {
             let p = (0..got.len().max(expected.len())).find(|i| got.get(*i) != expected.get(*i)).unwrap_or(0);
             let mut key = "C06:pruning-driver-differs-from-exhaustive".to_string();
             let mut extra = String::new();
@@ -1678,6 +1682,10 @@ fn driver_run(ctx: &mut Ctx, spec: &CorpusSpec, built: &Built, searcher: &Search
         // thresholds near the top of the score distribution (where pruning is active)
         let th = match rng.below(4) { 0 => sorted[sorted.len() / 2], 1 => sorted[sorted.len() / 10], 2 => sorted[(sorted.len() / 100).min(sorted.len() - 1)], _ => sorted[rng.usize_below(sorted.len().min(20))] };
         driver_case_multi(ctx, spec, built, searcher, &q, th);
+        // the same queries with threshold-raising callbacks, against the mirrored loops (bit for bit)
+        let policy = match rng.below(4) { 0 => Policy::Const(th.to_bits()), 1 => Policy::Staircase, _ => Policy::KthBest(1 + rng.usize_below(30)) };
+        let initial = match (&policy, rng.below(3)) { (Policy::Const(b), _) => f32::from_bits(*b), (_, 0) => th * 0.5, _ => f32::MIN };
+        driver_case(ctx, spec, built, searcher, &q, &policy, initial);
     }
     for _ in 0..n {
         // one or two scoring clauses: the scores are bit-identical on both paths (IEEE addition commutes)
@@ -1709,7 +1717,6 @@ fn driver_run(ctx: &mut Ctx, spec: &CorpusSpec, built: &Built, searcher: &Search
             if !sample.is_empty() {
                 driver_case_multi(ctx, spec, built, searcher, &q, pick(rng));
             }
-            continue;
         }
         let policy = match rng.below(5) { 0 => Policy::Const(pick(rng).to_bits()), 1 => Policy::Staircase, _ => Policy::KthBest(1 + rng.usize_below(30)) };
         let initial = match (&policy, rng.below(3)) { (Policy::Const(b), _) => f32::from_bits(*b), (_, 0) => pick(rng), _ => f32::MIN };
